@@ -101,7 +101,10 @@ func checkC08(tier string) int {
 	}
 	if tier == "thorough" {
 		especs = append(especs, nsqd.MicroSpec{State: "none", Eph: true, MemQ: 10, Ops: []string{"disc1", "disc2", "sub3"}},
-			nsqd.MicroSpec{State: "queued", Eph: true, Solo: true, MemQ: 0, Ops: []string{"disc1", "sub3"}})
+			nsqd.MicroSpec{State: "queued", Eph: true, Solo: true, MemQ: 0, Ops: []string{"disc1", "sub3"}},
+			nsqd.MicroSpec{State: "tpausedq", MemQ: 0, Sync: true, Ops: []string{"del_topic", "sub3"}},
+			nsqd.MicroSpec{State: "tpausedq", MemQ: 0, Sync: true, Ops: []string{"del_topic", "pub"}},
+			nsqd.MicroSpec{State: "queued", MemQ: 0, Sync: true, Ops: []string{"del_ch", "sub3"}})
 	}
 	runMicrosDelay(rep, especs, 150, 2, false)
 	rep.Rule += "; E2: every schedule with <= 2 deviations at shared points for last-consumer-leaves vs new-subscriber on an ephemeral channel"
